@@ -51,6 +51,7 @@ class TlcResult:
         self.depth = 0
         self.lines = []          # payload lines printed by the spec (PrintT)
         self.violated = None     # name of a violated invariant / property, if any
+        self.eval_failed = None  # name of an invariant whose evaluation raised a TLC error
         self.deadlock = False
         self.error = None
         self.trace = []          # counterexample states (text)
@@ -158,6 +159,9 @@ def run_tlc(module, cfg, *, workers=16, simulate=None, depth=None, timeout=600, 
                 mm = re.search(r"Invariant (\S+) is violated", line)
                 res.violated = mm.group(1) if mm else "?"
                 in_trace = True
+            elif "Evaluating invariant" in line and "failed" in line:
+                mm = re.search(r"Evaluating invariant (\S+) failed", line)
+                res.eval_failed = mm.group(1) if mm else "?"
             elif "Action property" in line and "violated" in line:
                 mm = re.search(r"Action property (\S+) ", line)
                 res.violated = mm.group(1) if mm else "?"
